@@ -1,5 +1,4 @@
 from copy import deepcopy
-from csv import reader
 from json import loads
 from lxml import etree
 from xmldiff import actions
@@ -92,6 +91,30 @@ class Patcher:
         pass
 
 
+def _split_fields(line):
+    """Split an action line on commas, except commas inside JSON strings"""
+    fields = []
+    field = []
+    in_string = escaped = False
+    for char in line:
+        if in_string:
+            field.append(char)
+            if escaped:
+                escaped = False
+            elif char == "\\":
+                escaped = True
+            elif char == '"':
+                in_string = False
+        elif char == ",":
+            fields.append("".join(field))
+            field = []
+        else:
+            field.append(char)
+            in_string = char == '"'
+    fields.append("".join(field))
+    return fields
+
+
 class DiffParser:
     """Makes a text diff into a list of actions"""
 
@@ -121,7 +144,7 @@ class DiffParser:
         line = line[1:-1]
         # Split the line on commas (ignoring commas in quoted strings) and
         # strip extraneous spaces. The first is the action, the rest params.
-        parts = [x.strip() for x in next(reader([line]))]
+        parts = [x.strip() for x in _split_fields(line)]
         action = parts[0]
         params = parts[1:]
         # Get the method, and return the result of calling it
